@@ -402,6 +402,8 @@ def judge(case, io, mo):
                     expected=mo, what='expansion gives %s, substitution rule gives %s' % (str(io)[:200], str(mo)[:200]))
     cs = ML.counters_used(case['prog'])
     exp = ML.expected_from_model(mo, cs)
+    if exp == [-3]:
+        return None     # the reference evaluator gave up (fuel / size guard): the case is not compared (tagged in the evidence)
     if not (isinstance(exp, list) and exp and exp[0] == 0):
         return dict(violation=False, key='C02:generator', expected=exp, what='the reference evaluator rejects this program (generator defect)')
     if io == exp:
